@@ -128,7 +128,7 @@ def run_property(pid: str, tier: str, seed: int, jobs: int = None, only=None):
 
     tasks = []
     for key, c in sorted(reg.items()):
-        if pid in c.props and (only is None or only in key):
+        if pid in c.props and (only is None or only in key or only in c.cname()):
             tiers = getattr(c, "tiers", ("quick", "thorough"))
             if tier not in tiers:
                 continue
@@ -157,6 +157,9 @@ def run_property(pid: str, tier: str, seed: int, jobs: int = None, only=None):
     undecided, violations, known_hits, drift = [], [], [], []
     replay_dir = os.path.join(VERIF, "replays", pid)
     os.makedirs(replay_dir, exist_ok=True)
+    if only is None:
+        for old_f in glob.glob(os.path.join(replay_dir, "*.json")):
+            os.unlink(old_f)
     all_names = []
 
     for r in results:
@@ -168,7 +171,7 @@ def run_property(pid: str, tier: str, seed: int, jobs: int = None, only=None):
         info = r["info"]
         c = reg[r["key"]]
         fi = dict(info.get("function") or {})
-        fi.update(name="%s.%s" % (c.module, c.qualname), contract=info["contract"], front_end=info.get("front_end"),
+        fi.update(name=("%s.%s" % (c.module, c.qualname)) if c.module else "lemma:" + r["key"], contract=info["contract"], front_end=info.get("front_end"),
                   paths=info.get("paths"), level=c.level, solver_s=info.get("solver_s"))
         functions.append(fi)
         for a in info.get("assumptions", []):
